@@ -19,7 +19,8 @@ MODES = ["T", "N", "A", "R"]
 ENTRIES = ["starttls", "legacy"]
 CAS = ["ca", "noca"]
 # X509_V_ERR_* that OpenSSL must report first for each kind when the CA is configured
-FIRST_ERR = {"wrongname": 62, "partial": 62, "expired": 10, "notyet": 9, "untrusted": 20, "selfsigned": 18}
+FIRST_ERR = {"wrongname": 62, "partial": 62, "expired": 10, "notyet": 9, "untrusted": 20, "selfsigned": 18, "chainexp": 10}
+VERIFYING = ("valid", "fullwild", "chainok")      # kinds that verify when the CA is configured
 KNOWN_NO_DEADLINE = "C08-tls-start-no-deadline"
 KNOWN_NO_DEADLINE_ENTRY = {
     "property": "C08", "id": KNOWN_NO_DEADLINE, "status": "known",
@@ -83,12 +84,27 @@ def extra_cells(thorough):
         # scripted callbacks: accept the first failing element, reject the second; answers other than 1
         "untrusted S10 starttls ca", "untrusted S10 legacy noca", "untrusted S11 starttls ca", "untrusted S110 legacy ca",
         "expired S2 starttls ca", "expired S0 legacy ca", "selfsigned S9 legacy ca", "valid S0 starttls ca",
+        # chains root -> intermediate -> leaf, the intermediate valid or expired; callbacks that decide on the certificate
+        # they are shown: P<r> accepts only role r, Q<r> rejects only role r (0 leaf, 1 intermediate, 2 root)
+        "chainok N starttls ca", "chainok N legacy noca", "chainok A starttls noca", "chainok P1 legacy noca",
+        "chainok P0 starttls noca", "chainok Q1 starttls noca", "chainok Q0 legacy noca",
+        "chainexp N legacy ca", "chainexp A starttls ca", "chainexp R legacy ca", "chainexp T legacy ca",
+        "chainexp P0 starttls ca", "chainexp P0 legacy ca", "chainexp P1 starttls ca", "chainexp P1 legacy noca",
+        "chainexp Q1 legacy ca", "chainexp Q0 starttls ca", "chainexp Q0 legacy noca",
+        "expired P0 starttls ca", "expired Q0 legacy ca", "expired P1 legacy ca", "untrusted P1 starttls ca",
+        "wrongname Q1 legacy ca",
+        # XMPP_CONN_FLAG_MANDATORY_TLS: the failure reactions must not depend on it
+        "wrongname N starttls+m ca", "valid N starttls+m ca", "expired R starttls+m ca", "untrusted N legacy+m ca",
+        "valid N starttls+m badca", "valid A legacy+m badca",
     ]
     if thorough:
         ex += ["fullwild %s %s %s" % (m, e, c) for m in MODES for e in ENTRIES for c in CAS]
         ex += ["%s %s %s cadir" % (k, m, e) for k in KINDS for m in ("N", "A") for e in ENTRIES]
         ex += ["%s S%s %s ca" % (k, s, e) for k in ("untrusted", "wrongname", "notyet") for s in ("01", "10", "11", "101", "3")
                for e in ENTRIES]
+        ex += ["%s %s %s %s" % (k, m, e, c) for k in ("chainok", "chainexp")
+               for m in ("T", "N", "A", "R", "P0", "P1", "P2", "Q0", "Q1", "Q2", "S10", "S01") for e in ENTRIES for c in CAS]
+        ex += ["%s %s %s+m ca" % (k, m, e) for k in KINDS for m in ("N", "R", "A") for e in ENTRIES]
     seen, out = set(), []
     for c in ex:
         if c not in seen:
@@ -123,7 +139,8 @@ def case_fields(case):
 def model_line(case, obs):
     """input of the extracted model: the cell + what OpenSSL/the peer did in this very run"""
     f = case_fields(case)
-    stream = "".join(x[0] for x in obs["v"].split(",")) if obs["v"] != "-" else "-"
+    # (preverify_ok, role of the certificate the verdict is about) as the shim at the OpenSSL boundary saw them
+    stream = ",".join(x[0] + y.split(":")[2] for x, y in zip(obs["v"].split(","), obs["e"].split(","))) if obs["v"] != "-" else "-"
     hs_ok = "0" if f["kind"] == "silent" else "1"
     te = obs.get("te", "0")
     if f["kind"] == "silent" and obs.get("silent", "").split("/")[1:2] == ["0"]:
@@ -137,6 +154,7 @@ def compare(case, obs, mod):
     diffs = []
     srv = dict(x.split(":", 1) if ":" in x else (x[:2], x[2:]) for x in obs["srv"].split("|"))
     pairs = [("cfg", obs["cfg"][:-1] + "0" if obs["cfg"].endswith("/-") else obs["cfg"], mod["cfg"]), ("v", obs["v"], mod["v"]), ("cbn", obs["cb"].split(":")[0], mod["cbn"]),
+             ("shown", obs["sh"], mod["sh"]),
              ("ts", obs["ts"], mod["ts"]), ("sec", obs["sec"], mod["sec"]), ("nd", obs["nd"], mod["nd"]),
              ("t", srv.get("t", "?"), mod["t"])]
     for name, a, b in pairs:
@@ -162,7 +180,9 @@ def compare(case, obs, mod):
 
 
 # ------------------------------------------------------------------------------------------ the property oracle
-def script_answers(mode, n):
+def script_answers(mode, roles):
+    """what the user's handler answers when asked, in turn, about certificates of these roles"""
+    n = len(roles)
     if mode == "A":
         return [1] * n
     if mode == "R":
@@ -170,6 +190,10 @@ def script_answers(mode, n):
     if mode.startswith("S"):
         ds = [int(ch) for ch in mode[1:]]
         return [(ds[i] if i < len(ds) else 0) for i in range(n)]
+    if mode.startswith("P"):
+        return [1 if r == mode[1] else 0 for r in roles]
+    if mode.startswith("Q"):
+        return [0 if r == mode[1] else 1 for r in roles]
     return []
 
 
@@ -183,8 +207,10 @@ def oracle(case, obs):
         return ["no result (crash or hang)"], [], None
     mode, kind, entry, ca = f["mode"], f["kind"], f["entry"], f["ca"]
     silent = kind == "silent"
-    verifies = kind in ("valid", "fullwild") and ca in ("ca", "cadir") and not silent
-    has_cb = mode[0] in "ARS"
+    mandatory = entry.endswith("+m")
+    entry = entry.split("+")[0]
+    verifies = kind in VERIFYING and ca in ("ca", "cadir") and not silent
+    has_cb = mode[0] in "ARSPQ"
     trust = mode == "T"
     srv = dict(x.split(":", 1) if ":" in x else (x[:2], x[2:]) for x in obs["srv"].split("|"))
     evs = obs["ev"].split(",") if obs["ev"] != "-" else []
@@ -192,7 +218,10 @@ def oracle(case, obs):
     secured_seen = ("C1" in evs) or any(e.startswith("D1") for e in evs) or obs["sec"] != "0/0"
     tls_data = srv.get("t", "-") != "-"
     vs = obs["v"].split(",") if obs["v"] != "-" else []
+    es = obs["e"].split(",") if obs["e"] != "-" else []
     failing = [x for x in vs if x[0] != "1"]
+    # the certificates OpenSSL's verdicts were about (read by the shim with X509_STORE_CTX_get_current_cert)
+    failing_roles = [y.split(":")[2] for x, y in zip(vs, es) if x[0] != "1"]
 
     if obs.get("hang") != "0":
         bad.append("the connection was still not torn down when the driver's wall-clock bound expired")
@@ -208,7 +237,8 @@ def oracle(case, obs):
         if int(hf) != 4:
             bad.append("host flags are %s, not X509_CHECK_FLAG_NO_PARTIAL_WILDCARDS alone" % hf)
     # --- user consent in this run
-    answers = script_answers(mode, ncb)
+    # what the user's handler says about the certificates that actually failed
+    answers = script_answers(mode, failing_roles) if not trust else []
     consent = trust or (has_cb and len(failing) > 0 and all(a != 0 for a in answers) and ncb >= len(failing))
     allowed = (verifies and not failing) or consent
     if ca == "badca" or silent:
@@ -224,12 +254,12 @@ def oracle(case, obs):
     if not trust and not silent and ca != "badca" and obs["cfg"] != "none":
         if verifies and failing:
             func.append("a certificate that should verify was flagged by OpenSSL (%s)" % obs["e"])
-        if not verifies and not failing and kind not in ("valid", "fullwild"):
+        if not verifies and not failing and kind not in VERIFYING:
             bad.append("certificate kind '%s' was not flagged by OpenSSL at all (v=%s)" % (kind, obs["v"]))
-        if not verifies and not failing and kind in ("valid", "fullwild"):
+        if not verifies and not failing and kind in VERIFYING:
             bad.append("certificate verified although no CA is configured")
         if failing and ca in ("ca", "cadir") and kind in FIRST_ERR:
-            first = [x for x, y in zip(obs["e"].split(","), vs) if y[0] != "1"][0]
+            first = [x for x, y in zip(es, vs) if y[0] != "1"][0]
             if int(first.split(":")[1]) != FIRST_ERR[kind]:
                 func.append("certificate kind '%s' failed with X509 error %s, expected %d" % (kind, first, FIRST_ERR[kind]))
     # --- callback bookkeeping
@@ -239,6 +269,9 @@ def oracle(case, obs):
     elif obs["cfg"] != "none":
         if ncb != len(failing):
             bad.append("user handler invoked %d times for %d failing chain elements" % (ncb, len(failing)))
+        if obs["sh"].replace("-", "") != "".join(failing_roles):
+            bad.append("the handler was shown certificates of roles %s, the failing ones were %s (0 leaf, 1 intermediate, 2 root)"
+                       % (obs["sh"], "".join(failing_roles) or "-"))
         for (x, a) in zip(failing, answers):
             if (x[1] != "0") != (a != 0):
                 bad.append("verify callback returned %s where the user answered %d" % (x[1], a))
@@ -264,8 +297,15 @@ def oracle(case, obs):
             bad.append("XMPP_CONN_CONNECT delivered after a failed handshake")
     if entry == "legacy" and obs["cw"] != "-|-" and not any(b.startswith("legacy SSL") for b in bad):
         bad.append("legacy SSL: plaintext %r left the client" % obs["cw"])
-    if obs["cw"].split("|")[0] not in ("-", "HS", "HX", "H"):
+    before = obs["cw"].split("|")[0]
+    if ca == "badca" and entry == "starttls":
+        # TLS cannot be initialised: without MANDATORY_TLS the library goes on without it (by design), with it nothing is sent
+        if before != ("H" if mandatory else "HA"):
+            bad.append("unexpected plaintext with TLS unavailable: %r" % before)
+    elif before not in ("-", "HS"):
         bad.append("unexpected plaintext before TLS: %r" % obs["cw"])
+    if mandatory and "A" in obs["cw"]:
+        bad.append("authentication data in the clear although TLS is mandatory (%s)" % obs["cw"])
     if (secured_seen or tls_data) and obs["cw"].split("|")[1] != "-":
         bad.append("plaintext %r written after TLS came up" % obs["cw"].split("|")[1])
     # --- the harmless direction: what the table says should work, works
@@ -311,7 +351,7 @@ def evaluate(chk, rows):
     for case, line, obs, ml, mod in rows:
         f = case_fields(case)
         chk.evaluations += 1
-        chk.count("%s/%s" % ("silent" if f["kind"] == "silent" else ("scripted" if f["mode"][0] == "S" else f["ca"]), f["entry"]))
+        chk.count("%s/%s" % ("silent" if f["kind"] == "silent" else ("scripted" if f["mode"][0] in "SPQ" else f["ca"]), f["entry"]))
         chk.count("kind:" + f["kind"])
         chk.count("mode:" + f["mode"][0])
         bad, func, allowed = oracle(case, obs)
